@@ -143,6 +143,8 @@ SPECIAL_DOCS = [
     ["P\tp1\tA+\t*"],                                   # one-segment path over undefined segment
     ["H\txx:i:1", "H\txx:i:2", "H\txx:i:3"],             # repeated header tag
     ["U\tu1\tu2", "U\tu2\tu1"],                          # mutually nested sets
+    # custom records made of tags only, or of the record type alone
+    ["H\tVN:Z:2.0", "T\txx:i:1\tyy:Z:a", "Q", "S\ta\t4\t*", "XX\tzz:J:[1]"],
     # groups that contain each other, over segments and edges that are then removed (the cascade must end)
     ["S\ts1\t4\t*", "S\ts2\t4\t*", "U\tu1\ts1 u2", "U\tu2\ts2 u1"],
     ["S\ts1\t4\t*", "S\ts2\t4\t*", "S\ts3\t4\t*", "U\tu1\ts1 u2", "U\tu2\ts2 u3", "U\tu3\ts3 u1", "U\tu4\tu1 s3"],
@@ -528,6 +530,15 @@ def api(g, cx, op, st):
         o = cx.call("str(line)", str, l)
     elif c == "l.clone":
         o = cx.call("line.clone()", l.clone)
+        if o.ok:
+            # the copy is used like any line: written, validated, compared, given a tag, added to another Gfa
+            cpy = o.value
+            cx.call("str(clone)", str, cpy)
+            cx.call("clone.validate()", cpy.validate)
+            cx.call("clone == line", lambda: cpy == l)
+            cx.call("clone.set(%r, %r)" % (a, v), cpy.set, a, v)
+            cx.call("clone.tagnames", lambda: cpy.tagnames)
+            cx.call("Gfa().add_line(clone)", lambda: gfapy.Gfa(version=g.version, vlevel=g.vlevel).add_line(cpy))
     elif c == "l.to_other":
         o = cx.call("line.to_gfa1_s/to_gfa2_s", lambda: (l.to_gfa1_s(), l.to_gfa2_s()))
     elif c == "l.edit_rm":
